@@ -658,8 +658,19 @@ def run_run_period(acc, case, selector, period, chosen, chosen_name, e):
         #  the HAL handle table reset between cases a later NotifierDelay could receive the same handle number and the two
         #  waiters stole each other's wake-ups, and without the reset the process crashed natively.  DESIGN.md 10.2 item 11.
         #  The watchdog is an optional collaborator of run(), not part of the statement: the pure-Python one stands in.)
+        #  It is wrapped so that run() takes its "any other watchdog" branch (isExpired() / printEpochs()).
         from robotpy_ext.misc.simple_watchdog import SimpleWatchdog
-        kw["watchdog"] = SimpleWatchdog(2 * P / 1e6)
+
+        class _OtherWatchdog:
+            def __init__(self, inner):
+                self._inner = inner
+
+            def printEpochs(self):          # (wpilib.Watchdog's name for it)
+                self._inner.printIfExpired()
+
+            def __getattr__(self, name):
+                return getattr(self._inner, name)
+        kw["watchdog"] = _OtherWatchdog(SimpleWatchdog(2 * P / 1e6))
     if kw.get("watchdog") is not None:
         acc.ev("run-with-watchdog")
     if how != "fn":
